@@ -221,17 +221,19 @@ pub fn run_pipeline_case(
     // CREATE guard on there is no reference for data (path agreement decides, see run_relation_case).
     let prague = s.evm.spec >= revm_primitives::hardfork::SpecId::PRAGUE;
     let guard_on = s.grevm.forbid_delegated_create && prague;
-    let reserve_model = s.grevm.reserve_delegated_balance && prague && !guard_on;
+    let reserve_on = s.grevm.reserve_delegated_balance && prague;
+    let reserve_model = reserve_on || guard_on;
     let precompile_log_ref = Arc::new(PrecompileLog::default());
     let pcs_ref = precompiles::build(&s.precompiles, &precompile_log_ref);
-    let model_stats = std::cell::RefCell::new((0u64, 0u64, false));
+    let model_stats = std::cell::RefCell::new((0u64, 0u64, false, 0u64));
     let run_ref = |state: &mut reference::RefState<'_>, block: &crate::scenario::BlockSpec, txs: &[crate::scenario::TxSpec], count: bool| -> RefBlock {
         if reserve_model {
-            let r = crate::reservemodel::run_reserve_model_block(state, &s.evm, block, txs, &pcs_ref, true);
+            let r = crate::reservemodel::run_reserve_model_block(state, &s.evm, block, txs, &pcs_ref, true, reserve_on, guard_on);
             let mut m = model_stats.borrow_mut();
             if count {
                 m.0 += r.violations.len() as u64;
                 m.1 += r.debit_txs;
+                m.3 += r.guard_halts;
             }
             m.2 |= r.undecided;
             r.block
@@ -268,7 +270,7 @@ pub fn run_pipeline_case(
         (block_f, bundle_f)
     });
     // no reference for data: CREATE guard on, or a block the rule model cannot decide
-    let policy_on = guard_on || (reserve_model && model_stats.borrow().2);
+    let policy_on = reserve_model && model_stats.borrow().2;
     if reserve_model {
         let m = model_stats.borrow();
         workload_probes.push(("probe.reserve_model_blocks", 1));
@@ -280,6 +282,12 @@ pub fn run_pipeline_case(
         }
         if m.2 {
             workload_probes.push(("probe.reserve_model_undecided_blocks", 1));
+        }
+        if guard_on {
+            workload_probes.push(("probe.guard_model_blocks", 1));
+        }
+        if m.3 > 0 {
+            workload_probes.push(("probe.guard_model_halted_frames", m.3));
         }
     }
     let expected_first = Arc::new(ref_first.steps.clone());
